@@ -49,6 +49,17 @@ def stepLine (s : St) (ws : List String) : St × String :=
       (s, "exact " ++ dump m' st)
     | _, _, _ => (s, "bad-op")
   -- gate <state> : the codes the handlers answer with
+  -- cross <nparts> <failAt> <acks> : one produce over nparts partitions, the upload of partition failAt fails, thresholds
+  -- so low that any failure rates S3 unavailable
+  | ["cross", n, failAt, acks] => match n.toNat?, failAt.toNat? with
+    | some n, some failAt =>
+      let rating : List Bool → HState := fun h => if h.any id then .unavailable else .healthy
+      let parts := (List.range n).map fun i => i == failAt
+      let outs := produceLoop rating [] parts
+      let codes := if acks == "0" then outs.map (fun _ => "noreply") else outs.map fun o => toString o.code
+      let final := rating (parts.take (outs.filter (·.appended)).length)
+      (s, s!"cross codes={joinWith "," codes} appended={joinWith "," (outs.map fun o => if o.appended then "1" else "0")} final={final.name}")
+    | _, _ => (s, "bad-op")
   | ["gate", st, acks] =>
     let hs := if st == "healthy" then HState.healthy else if st == "degraded" then .degraded else .unavailable
     let (pc, app) := produceGate hs 0
